@@ -524,6 +524,16 @@ class Gen:
         nsubs = r.randint(0, self.p["max_subs"])
         self.subs = [f"sub{j}" for j in range(nsubs)]
         main = self.stmts(0, None, r.randint(1, self.p["max_stmts"] + 1))
+        # execution mode: an instruction available in one mode only makes tealer analyse the program as an application
+        # (resp. a logic signature); without one it is taken for a logic signature
+        w = r.random()
+        pm = self.p.get("mode_marker", 0.45)
+        if w < pm * 0.67:
+            self.features.add("mode_application")
+            main = r.choice([[("byte", '"k"'), ("app_global_get",), ("pop",)], [("byte", '"m"'), ("log",)]]) + main
+        elif w < pm:
+            self.features.add("mode_signature")
+            main = r.choice([[("arg", 0), ("pop",)], [("arg_0",), ("pop",)]]) + main
         end = r.choice(self.p["end_styles"])
         terminated = bool(main) and main[-1][0] in ("return", "err")
         if not terminated:
